@@ -415,6 +415,18 @@ def run(tier):
             tot["distinct"] += dis
             per[tag] = {"executions": ex, "distinct_global_orders": dis, "bounds": re.findall(r"BOUND (\d+) executions=(\d+)", out)}
             ck.guard(dis > 1 or ex <= 1, "vacuous exploration in '%s': one global order from %d executions" % (tag, ex))
+        # scanners with different prefixes sharing one tables file (manual, "Serialized Tables": each finds its own set by name): three
+        # prefixed scanners x all six orders of their sets in the file (round-7 seed C12-r7m3)
+        from . import c15
+        shared = 0
+        for cjob, r in pmap(c15.concat_scenario, [("-Cem", "R"), ("-Cf", "NR")] if tier == "quick" else [(tb, api) for tb in ("-Cem", "-Cf", "-CFe") for api in ("NR", "R")], check=ck):
+            if "worker_exception" in r or "build_error" in r:
+                ck.notes.append("shared tables file scenario %s not built: %s" % (cjob, str(r.get("worker_exception") or r.get("build_error"))[:200]))
+                continue
+            shared += r["counts"].get("concat_scans", 0)
+            for kind, what in r["viol"]:
+                ck.violation("C12:shared-tables-file:%s" % kind, "prefixed scanners sharing one tables file (%s %s): %s" % (cjob[0], cjob[1], what[-300:]))
+        ck.cov["shared_tables_file_scans"] = shared
         ck.cov.update(states=tot["distinct"], transitions=tot["choice_points"], traces_validated_against_impl=tot["executions"],
                       scanners_linked=len(FLAVOURS), instances=len(INSTANCES), configurations=len(CONFIGS), external_symbols_checked=nsym,
                       bound_pairs=bound_pair, bound_larger=bound_multi, per_run=per,
